@@ -4,9 +4,13 @@ import (
 	"encoding/binary"
 	"fmt"
 	"math"
+	"os"
+	"path/filepath"
 	"reflect"
 	"runtime"
 	"runtime/debug"
+	"strconv"
+	"strings"
 	"testing"
 
 	"github.com/segmentio/encoding/thrift"
@@ -392,4 +396,41 @@ func TestFuzzSpecSeeds(t *testing.T) {
 			evid.Violation(t, "FuzzSpecSeeds", c, res.fail)
 		}
 	})
+}
+
+// TestFuzzCorpusVerdicts (development aid): with C13_FUZZ_CORPUS=<dir of a go
+// fuzz cache for FuzzThriftSpecDiff> it prints how the oracle classifies the
+// corpus entries, to check that the campaign reaches the differential branch.
+func TestFuzzCorpusVerdicts(t *testing.T) {
+	dir := os.Getenv("C13_FUZZ_CORPUS")
+	if dir == "" {
+		return
+	}
+	D := activeDialect()
+	files, _ := filepath.Glob(filepath.Join(dir, "*"))
+	count := map[string]int{}
+	for _, f := range files {
+		raw, err := os.ReadFile(f)
+		if err != nil {
+			continue
+		}
+		lines := strings.SplitN(string(raw), "\n", 3)
+		if len(lines) < 2 || !strings.HasPrefix(lines[1], "[]byte(") {
+			continue
+		}
+		lit := strings.TrimSuffix(strings.TrimPrefix(strings.TrimSpace(lines[1]), "[]byte("), ")")
+		s, err := strconv.Unquote(lit)
+		if err != nil || len(s) == 0 {
+			continue
+		}
+		data := []byte(s)
+		c := Case{Kind: "fuzz", P: int(data[0]) % 3, Sel: int(data[0]) / 3 % len(fuzzTargets), Data: data[1:]}
+		res := fuzzCheck(c, D)
+		k := res.note
+		if res.fail != nil {
+			k = "FAIL " + res.fail.Class
+		}
+		count[fmt.Sprintf("%s/%s", thriftspec.Proto(c.P%3), k)]++
+	}
+	t.Logf("corpus verdicts: %v", count)
 }
